@@ -468,8 +468,11 @@ def _alternatives(fa: FA, e, at, cap=24):
                     break
                 if isinstance(x, ast.Name) and isinstance(x.ctx, ast.Load) and x.id not in bound:
                     ds = [d for d in fa.df.reaching(at_, x.id)]
-                    if ds and all(d.kind == "assign" and d.value is not None and d.node >= 0 and (d.node, d.name) not in stack for d in ds):
-                        site, vals = x, [(d.value, d.node, (d.node, d.name)) for d in ds]
+                    if ds and all(d.kind in ("assign", "aug") and d.value is not None and d.node >= 0 and (d.node, d.name) not in stack for d in ds):
+                        # `x += e` stands for x = <x before> + e (evaluated where it is written)
+                        site, vals = x, [((d.value if d.kind == "assign" else
+                                           ast.BinOp(left=ast.Name(id=x.id, ctx=ast.Load()), op=copy.deepcopy(d.stmt.op), right=d.value)),
+                                          d.node, (d.node, d.name)) for d in ds]
                         break
                     x._alt_done = True
         if site is None:
@@ -970,6 +973,44 @@ def _enumerated_fields(ck, cls):
     return out
 
 
+def _lookup_cannot_create(ck, fi, sub) -> bool:
+    """A subscript load `T[k]` on a defaultdict creates an entry only when k is absent: a look-up that every way to it has
+    established `k in T` for (if statement, guard clause, conditional expression, `and`) creates nothing."""
+    if not (isinstance(sub, ast.Subscript) and fi is not None and fi.node is not None):
+        return False
+    fa = FA(ck, fi)
+    ids = fa.nodes(sub)
+    if not ids:
+        return False
+    try:
+        want = "%s in %s" % (fa.xnorm(sub.slice, ids[0]), fa.xnorm(sub.value, ids[0]))
+    except AnalysisError:
+        return False
+    # inside the statement: the arm of a conditional expression / the operand behind `and` that the membership test guards
+    n = sub
+    while n is not None and not isinstance(n, ast.stmt):
+        p_ = fa.pm.get(n)
+        tests = []
+        if isinstance(p_, ast.IfExp) and n is not p_.test:
+            tests = [(p_.test, n is p_.body)]
+        elif isinstance(p_, ast.BoolOp) and isinstance(p_.op, ast.And):
+            tests = [(v, True) for v in p_.values[:p_.values.index(n)]] if n in p_.values else []
+        elif isinstance(p_, (ast.ListComp, ast.SetComp, ast.GeneratorExp, ast.DictComp)):
+            tests = [(c_, True) for g in p_.generators for c_ in g.ifs] if not any(n is g.iter for g in p_.generators) else []
+        for (t, pol) in tests:
+            try:
+                if any(l == (want, True) for l in fa._atoms(t, ids[0], pol)):
+                    return True
+            except AnalysisError:
+                pass
+        n = p_
+    try:
+        conds = fa.conditions(fa.stmt_of(sub) or sub)
+    except AnalysisError:
+        return False
+    return bool(conds) and all((want, True) in c_ for c_ in conds)
+
+
 def check_queries_effect_free(ck, rule="C05.R3"):
     ck.rule(rule, "queries have no persistent effect: no filesystem write and no mutation of observable backend state "
                   "is reachable from any query method of any StorageBackend implementation (filling the MemoryCache is "
@@ -1001,9 +1042,11 @@ def check_queries_effect_free(ck, rule="C05.R3"):
             for (owner, fld, fi, node, chain) in muts:
                 if not is_persist_owner(owner):
                     continue
-                f = fld.split(":")[0]
                 # a look-up that creates an entry in a defaultdict changes backend state too, whether or not a query
-                # enumerates that table today (and it does so on a read-only backend as well)
+                # enumerates that table today (and it does so on a read-only backend as well) -- unless the key was
+                # found to be present first
+                if fld.endswith(":autoviv") and _lookup_cannot_create(ck, fi, node):
+                    continue
                 bad.append((owner, fld, fi, node, chain))
             if bad:
                 for (owner, fld, fi, node, chain) in bad[:3]:
@@ -1263,14 +1306,19 @@ def check_path_scheme(ck):
     pmod = PathModel(ck)
 
     def call_named(fa_, r):
-        """(is the name the call path of the method's own (fn_reference, arg_hash)?, parts after the call path)"""
-        parts = pmod.flatten(fa_, r.value, r)
-        cp = PathModel.call_path(parts)
-        arg = [p_ for p_ in fa_.fi.params if p_ != "self"]
-        own = cp is not None and bool(arg) and cp[0] == arg[0] + ".fn_reference" and cp[1] == arg[0] + ".arg_hash"
-        return own, (cp[2] if cp is not None else parts)
+        """per value the return may hand out (a name built on several branches gives one each):
+        [(is the name the call path of the method's own (fn_reference, arg_hash)?, parts after the call path)]"""
+        out_ = []
+        ids_ = fa_.nodes(r)
+        for alt in (_alternatives(fa_, r.value, ids_[0]) if ids_ else [r.value]):
+            parts = pmod._post(pmod._flat(alt))
+            cp = PathModel.call_path(parts)
+            arg = [p_ for p_ in fa_.fi.params if p_ != "self"]
+            own = cp is not None and bool(arg) and cp[0] == arg[0] + ".fn_reference" and cp[1] == arg[0] + ".arg_hash"
+            out_.append((own, (cp[2] if cp is not None else parts)))
+        return out_
 
-    named = [call_named(mp, r) for r in mp.some([r for r in mp.returns() if r.value is not None], "return with a value")]
+    named = [x for r in mp.some([r for r in mp.returns() if r.value is not None], "return with a value") for x in call_named(mp, r)]
     sufs = {rest[0][1] if len(rest) == 1 and rest[0][0] == "lit" else None for (_own, rest) in named}
     if None in sufs and all(own for (own, _r) in named):
         raise AnalysisError("%s: cannot identify the literal suffix of memento file names" % mp.qual)
@@ -1292,16 +1340,17 @@ def check_path_scheme(ck):
     ck.ob(R, lm.key(lk, "directory"), okd, "listing scans exactly the function's directory" if okd else
           "list_mementos does not scan the directory returned by _get_function_path", lm.where(lk))
     mk = FA(ck, MDS + "._get_metadata_key")
-    knamed = [call_named(mk, r) for r in mk.some([r for r in mk.returns() if r.value is not None], "return with a value")]
+    knamed = [x for r in mk.some([r for r in mk.returns() if r.value is not None], "return with a value") for x in call_named(mk, r)]
     okk = all(own and rest and rest[0][0] == "lit" and rest[0][1] and not rest[0][1].startswith(suffix) and not suffix.startswith(rest[0][1]) for (own, rest) in knamed)
     ck.ob(R, mk.key(None, "metadata-name"), okk, "custom metadata names start with the call path and cannot end like a memento" if okk else
           "custom metadata file names collide with memento file names", mk.where())
     # list_functions strips '<prefix>/'
     lf = FA(ck, MDS + ".list_functions")
     lkf = lf.one(lf.calls("list_keys_nonversioned"), "list_keys_nonversioned call")
-    dirv = A.kwarg(lkf, "directory")
+    blf = _bind(lkf, lk_params)
+    dirv, recv = blf.get("directory"), blf.get("recursive")
     okf = dirv is not None and "attr:DataSourceMetadataSource._function_path_prefix" in lf.deps(dirv) and \
-        (A.kwarg(lkf, "recursive") is None or A.norm(A.kwarg(lkf, "recursive")) == "False")
+        (recv is None or _xt(lf, recv, lkf) == "False")
     ck.ob(R, lf.key(lkf, "directory"), okf, "functions are listed from the metadata prefix, one level" if okf else
           "list_functions does not list exactly the first level under the metadata prefix", lf.where(lkf))
     gf = FA(ck, MDS + "._get_function_path")
@@ -1311,7 +1360,7 @@ def check_path_scheme(ck):
     # filesystem data source: .link suffix, .versions directory, escape/unquote
     lp = FA(ck, FSDS + "._get_non_versioned_link_path")
     lpr = lp.one([r for r in lp.returns() if r.value is not None], "return")
-    lits = [s for s in A.strings_in(safe_expand(lp, lpr.value, lpr))]
+    lits = [s for s in A.strings_in(_canon_strings(safe_expand(lp, lpr.value, lpr)))]
     ck.need(len(lits) == 1, "link path builder: cannot identify the link suffix")
     link = lits[0]
     ls = FA(ck, FSDS + ".list_keys_nonversioned")
